@@ -184,7 +184,14 @@ def replay_pair(m, line):
     times = [tm(t) for t in ticks]
     partial_a = bool(set(acols) & set(RPH)) and not all(c in acols for c in RPH)
     try:
-        Rs = T.resample_state(A, times if rng.rand() < 0.5 else np.array(times))
+        # the requested times in the forms array_like admits: list, ndarray, pandas Index (e.g. the index of another table) - unsorted,
+        # with duplicates and points outside the span; whatever the form, the caller's object must come back untouched (seeded change C19_9)
+        form = int(rng.randint(3))
+        targ = times if form == 0 else np.array(times) if form == 1 else pd.Index(np.array(times))
+        tsnap = list(times)
+        Rs = T.resample_state(A, targ)
+        if list(np.asarray(targ)) != tsnap:
+            out.append(("violation", "resample_state reordered / modified the `times` object it was given (%s, %s)" % (type(targ).__name__, tag)))
         exp_ticks = sorted(t for t in ticks if aidx[0] <= t <= aidx[-1])
         if list(Rs.index) != [tm(t) for t in exp_ticks]:
             out.append(("violation", "resample_state index %s, expected %s (%s)" % (list(Rs.index), exp_ticks, tag)))
